@@ -402,6 +402,12 @@ func configs(quick bool) []Config {
 				for _, k := range g.kinds {
 					out = append(out, Config{G: g.g, Rules: []RuleSpec{{2, k, false}}, T0: near})
 				}
+				// ... and a clock half a bucket before bucket number 2^32 of the resource's array (January 2038 for
+				// 500 ms buckets): the histories cross it
+				bl := int64(g.g.ArrIntervalMs) / int64(g.g.ArrSamples)
+				for _, k := range []uint32{g.kinds[0], g.kinds[1], g.kinds[3]} {
+					out = append(out, Config{G: g.g, Rules: []RuleSpec{{2, k, false}}, T0: (int64(1)<<32)*bl - bl/2 - 1})
+				}
 			}
 			// associated-resource rules (the referenced resource has its own traffic)
 			for _, k := range g.kinds {
